@@ -24,6 +24,9 @@
 #include <fstream>
 #include <exception>
 #include <unistd.h>
+#include <thread>
+#include <atomic>
+#include <chrono>
 #include <fcntl.h>
 #include <sys/stat.h>
 
@@ -234,12 +237,32 @@ inline void install_crash_capture() {
   sigaction(SIGALRM, &sa, nullptr);
 }
 
+// Per-case watchdog: a helper thread (SIGALRM is useless under TSan, which defers async signals while the
+// main thread blocks in pthread_join).  deadline = steady-clock ms at which the running case is declared hung.
+inline std::atomic<int64_t> &watchdog_deadline() { static std::atomic<int64_t> d{0}; return d; }
+inline int64_t steady_ms() { return std::chrono::duration_cast<std::chrono::milliseconds>(std::chrono::steady_clock::now().time_since_epoch()).count(); }
+inline void watchdog_arm(unsigned seconds) {
+  static bool started = false;
+  if (!started) {
+    started = true;
+    std::thread([] {
+      for (;;) {
+        std::this_thread::sleep_for(std::chrono::milliseconds(100));
+        int64_t d = watchdog_deadline().load();
+        if (d != 0 && steady_ms() > d) { dump_current_case("hang"); _exit(3); }
+      }
+    }).detach();
+  }
+  watchdog_deadline().store(steady_ms() + (int64_t)seconds * 1000);
+}
+inline void watchdog_disarm() { watchdog_deadline().store(0); }
+
 // Execute one case with bookkeeping.  Returns the error message ("" = property held).
 inline std::string execute_case(const Scenario &scn) {
   auto &r = rt(); auto &s = stats();
   r.current_text = to_text(*r.sub, scn);
   r.in_case = true;
-  if (r.case_alarm_s) alarm(r.case_alarm_s);
+  if (r.case_alarm_s) watchdog_arm(r.case_alarm_s);
   CaseInfo info;
   std::string err;
   try {
@@ -249,7 +272,7 @@ inline std::string execute_case(const Scenario &scn) {
   } catch (...) {
     err = "unknown C++ exception escaped into the harness";
   }
-  if (r.case_alarm_s) alarm(0);
+  if (r.case_alarm_s) watchdog_disarm();
   r.in_case = false;
   s.evaluations++;
   for (auto c : info.classes) s.classes[c]++;
